@@ -6,6 +6,7 @@ export PYTHONHASHSEED=0
 mkdir -p build evidence coq/Gen
 /venv/bin/python translate/py2v.py coq/Gen || echo "setup: translator reported failures (checks will report them)"
 [ -f translate/f902v.py ] && { /venv/bin/python translate/f902v.py coq/Gen || true; }
+[ -f translate/f902v_fn.py ] && { /venv/bin/python translate/f902v_fn.py coq/Gen || true; }
 ( cd coq && coq_makefile -f _CoqProject -o Makefile >/dev/null && timeout 3000 make -j16 -k 2>&1 | grep -v '^COQC\|^COQDEP\|^CONDA\|conda' | tail -40 )
 if grep -rn --include='*.v' -E '\b(Admitted|admit|Axiom|Parameter|Conjecture|Unset Guard|bypass_check)\b' coq | grep -v '(\*' ; then
   echo "setup: forbidden vernacular found"; fi
